@@ -675,6 +675,7 @@ type specCtx struct {
 	where   string
 	real    *State
 	lets    map[string]ast.Expr
+	retrying bool
 }
 
 func (fe *FuncEnc) evalClause(f *Frame, c *Clause, cur, old *State, names map[string]TV, results []Term, pos token.Pos) (t Term) {
@@ -689,6 +690,14 @@ func (fe *FuncEnc) evalClause(f *Frame, c *Clause, cur, old *State, names map[st
 	defer func() {
 		if r := recover(); r != nil {
 			if ee, ok := r.(*EngineError); ok {
+				// last resort of the rename recovery: the unknown name is bound to each unmentioned named value in turn; if the
+				// clause is well-sorted for exactly one of them, that one is meant
+				if m := unknownIdentRe.FindStringSubmatch(ee.msg); m != nil && !ctx.retrying {
+					if tv, ok := ctx.retryWithCandidates(c, m[1]); ok {
+						t = tv
+						return
+					}
+				}
 				panic(&EngineError{fmt.Sprintf("%s: in clause %q: %s", c.Line, c.Text, ee.msg)})
 			}
 			panic(r)
@@ -923,6 +932,114 @@ func (c *specCtx) ident(name string) TV {
 	}
 	engErr("unknown identifier %q", name)
 	return TV{}
+}
+
+// specArgGoType: spec functions whose single argument is a Go library object (used to tell renamed locals apart)
+var specArgGoType = map[string]string{"sbText": "*strings.Builder"}
+
+var unknownIdentRe = regexp.MustCompile(`unknown identifier "([^"]+)"`)
+
+// retryWithCandidates evaluates the clause with `name` bound to each candidate value (named locals, allocs and parameters of
+// the function that the contract mentions nowhere) and succeeds when exactly one candidate makes the clause well-sorted.
+func (c *specCtx) retryWithCandidates(cl *Clause, name string) (Term, bool) {
+	if c.f == nil || c.f.fn == nil {
+		return Term{}, false
+	}
+	con := c.fe.eng.contracts[c.fe.eng.fnames[c.f.fn]]
+	if con == nil {
+		return Term{}, false
+	}
+	mentioned := con.mentionedNames()
+	cands := map[string]bool{}
+	for _, p := range c.f.fn.Params {
+		if !mentioned[p.Name()] {
+			cands[p.Name()] = true
+		}
+	}
+	for _, b := range c.f.fn.Blocks {
+		for _, in := range b.Instrs {
+			switch x := in.(type) {
+			case *ssa.Phi:
+				if x.Comment != "" && x.Comment != "rangeindex" && !mentioned[x.Comment] && token.IsIdentifier(x.Comment) {
+					cands[x.Comment] = true
+				}
+			case *ssa.DebugRef:
+				if id, ok := x.Expr.(*ast.Ident); ok && !mentioned[id.Name] && id.Name != "_" {
+					cands[id.Name] = true
+				}
+			case *ssa.Alloc:
+				if x.Comment != "" && !mentioned[x.Comment] && token.IsIdentifier(x.Comment) {
+					cands[x.Comment] = true
+				}
+			}
+		}
+	}
+	// Go-type hint from the use site: the argument of a spec function over a Go library object must have that object's type
+	wantType := ""
+	if m := regexp.MustCompile(`(\w+)\(`+regexp.QuoteMeta(name)+`\)`).FindStringSubmatch(cl.Text); m != nil {
+		wantType = specArgGoType[m[1]]
+	}
+	var okNames []string
+	var okTerm Term
+	for cand := range cands {
+		c2 := *c
+		c2.retrying = true
+		c2.bound = map[string]TV{}
+		for k, v := range c.bound {
+			c2.bound[k] = v
+		}
+		tv, found := c2.lookupByAnyNameOrAlloc(cand)
+		if !found {
+			continue
+		}
+		if wantType != "" && (tv.Typ == nil || types.TypeString(tv.Typ, nil) != wantType) {
+			continue
+		}
+		c2.bound[name] = tv
+		func() {
+			defer func() {
+				if r := recover(); r != nil {
+					if _, isEE := r.(*EngineError); !isEE {
+						panic(r)
+					}
+				}
+			}()
+			t := c2.eval(cl.Expr)
+			if t.T.Sort == SBool || t.T.Sort == SInt {
+				okNames = append(okNames, cand)
+				okTerm = t.T
+			}
+		}()
+	}
+	if len(okNames) != 1 {
+		return Term{}, false
+	}
+	c.fe.assumes[fmt.Sprintf("contract name %q of %s is taken to be the renamed local %q (the only candidate for which the clause is well-sorted)", name, c.fe.eng.fnames[c.f.fn], okNames[0])] = true
+	return okTerm, true
+}
+
+func (c *specCtx) lookupByAnyNameOrAlloc(name string) (TV, bool) {
+	if tv, ok := c.lookupByAnyName(name); ok {
+		return tv, true
+	}
+	if c.f != nil && c.f.fn != nil && c.f.vals != nil {
+		var found *ssa.Alloc
+		n := 0
+		for _, b := range c.f.fn.Blocks {
+			for _, in := range b.Instrs {
+				if al, ok := in.(*ssa.Alloc); ok && al.Comment == name {
+					if _, has := c.f.vals[al]; has {
+						found = al
+						n++
+					}
+				}
+			}
+		}
+		if n == 1 {
+			return TV{c.f.vals[found], found.Type()}, true
+		}
+	}
+	return TV{}, false
 }
 
 func lcsLen(a, b string) int {
